@@ -143,6 +143,19 @@ def rule_cache_access(ctx):
             if n['k'] == 'mcall':
                 rt = n['recv'].get('ty', '') + n['recv'].get('aty', '')
                 if ('BTreeMap' in rt or 'HashMap' in rt or 'MutexGuard' in rt or 'Entry' in rt) and n['method'] not in allowed:
+                    if n['method'] == 'insert':
+                        # get-or-insert written out: `if let Some(v) = map.get(k) { return v.clone() } .. map.insert(k, v)` —
+                        # the insert is reachable only after a lookup of the map missed, under the same guard
+                        missed = False
+                        for pc in P.path_conds(fn, n):
+                            if pc[0] in ('if', 'match', 'nomatch', 'letelse') and pc[1] is not None:
+                                took_miss = (pc[0] == 'if' and pc[2] is False) or pc[0] in ('nomatch',) or \
+                                            (pc[0] == 'match' and 'None' in repr(pc[2])) or (pc[0] == 'if' and pc[2] is True and any(x.get('k') == 'unary' and x.get('op') == '!' for x in walk(pc[1])))
+                                if took_miss and any(x['k'] == 'mcall' and x['method'] in ('get', 'contains_key') and
+                                                     any(t_ in (x['recv'].get('ty', '') + x['recv'].get('aty', '')) for t_ in ('BTreeMap', 'HashMap', 'MutexGuard')) for x in walk(pc[1])):
+                                    missed = True
+                        if missed:
+                            continue
                     badm.append(n['method'])
         inst = '%s/map-ops' % short(fn.path)
         if badm:
